@@ -26,6 +26,8 @@ fn classify_err(msg: &str) -> String {
         "err:expt0".to_string()
     } else if low.contains("typemismatch") || low.contains("type mismatch") {
         "err:type".to_string()
+    } else if low.contains("aritymismatch") || low.contains("arity mismatch") {
+        "err:arity".to_string()
     } else {
         let kind: String = first
             .trim_start_matches("Error: ")
@@ -148,15 +150,62 @@ fn scheme_op(op: &str) -> Option<(&'static str, usize)> {
         "id" => ("+", 1),
         "tostr" => ("number->string", 1),
         "roundtrip" => ("c10-roundtrip", 1),
+        "tostrr" => ("number->string", 2),
+        "roundtripr" => ("c10-roundtripr", 2),
         _ => return None,
     })
 }
 
 fn has_prim(op: &str) -> bool {
-    !matches!(op, "gcd" | "lcm" | "roundtrip")
+    !matches!(op, "gcd" | "lcm" | "roundtrip" | "roundtripr")
 }
 
-const PRELUDE: &str = "(define (c10-roundtrip x) (string->number (number->string x)))";
+const PRELUDE: &str = "(define (c10-roundtrip x) (string->number (number->string x))) (define (c10-roundtripr x r) (string->number (number->string x r) r))";
+
+/// the variadic requests: `addn subn muln divn` and the order primitives on any number of operands
+fn variadic_op(op: &str) -> Option<&'static str> {
+    Some(match op {
+        "addn" => "+",
+        "subn" => "-",
+        "muln" => "*",
+        "divn" => "/",
+        "len" => "<=",
+        "ltn" => "<",
+        "gtn" => ">",
+        "gen" => ">=",
+        "eqn" => "=",
+        _ => return None,
+    })
+}
+
+/// shapes of a variadic call: literals (constant folder), globals (generic call / the `ADD SUB MUL DIV LTE ..` op codes
+/// with payload n), locals of a procedure, `#%prim.` name, `apply`, the procedure as a first-class value, let-bound
+/// locals, result as a branch condition.
+fn variadic_shapes(f: &str, args: &[&str], n: usize, cmp: bool) -> Vec<(&'static str, String)> {
+    let k = args.len();
+    let lits = args.join(" ");
+    let globals: Vec<String> = (0..k).map(|i| format!("c10-v{}", i)).collect();
+    let params: Vec<String> = (0..k).map(|i| format!("x{}", i)).collect();
+    let (g, p) = (globals.join(" "), params.join(" "));
+    let mut v = Vec::new();
+    v.push(("fold", format!("({} {})", f, lits)));
+    v.push(("call", format!("({} {})", f, g)));
+    v.push(("locals", format!("(define (c10-vf{n} {p}) ({f} {p})) (c10-vf{n} {g})")));
+    v.push(("prim", format!("(define (c10-vp{n} {p}) (#%prim.{f} {p})) (c10-vp{n} {g})")));
+    v.push(("apply", format!("(apply {} (list {}))", f, g)));
+    if k > 0 {
+        let lists: Vec<String> = globals.iter().map(|x| format!("(list {})", x)).collect();
+        v.push(("map-locals", format!("(define (c10-vm{n} {p}) ({f} {p})) (car (map c10-vm{n} {}))", lists.join(" "))));
+        let binds: Vec<String> = (0..k).map(|i| format!("(x{} c10-v{})", i, i)).collect();
+        v.push(("let", format!("(let ({}) ({} {}))", binds.join(" "), f, p)));
+        v.push(("loop", format!("(define (c10-vk{n} {p}) ({f} {p})) (define (c10-vl{n} i acc) (if (= i 0) acc (c10-vl{n} (- i 1) (c10-vk{n} {g})))) (c10-vl{n} 3 #f)")));
+    }
+    if cmp && k > 0 {
+        v.push(("branch", format!("(define (c10-vb{n} {p}) (if ({f} {p}) #t #f)) (c10-vb{n} {g})")));
+    }
+    v
+}
+
 
 fn new_engine() -> Engine {
     let mut e = Engine::new();
@@ -341,7 +390,7 @@ fn shapes(op: &str, f: &str, args: &[&str], n: usize, all: bool) -> Vec<(&'stati
             ));
         }
     }
-    if all && op != "roundtrip" {
+    if all && op != "roundtrip" && op != "roundtripr" {
         v.extend(module_shapes(op, f, args, &wrap));
     }
     v
@@ -406,6 +455,59 @@ fn main() {
             }
             _ => {
                 let toks: Vec<&str> = line.split_whitespace().collect();
+                if toks[0] == "s2n" {
+                    // string->number on an arbitrary text: literal (constant folder), global, apply
+                    if toks.len() < 2 || toks.len() > 3 || toks[1].contains('"') || toks[1].contains('\\') {
+                        writeln!(out, "bad=arity").ok();
+                        continue;
+                    }
+                    let radix = if toks.len() == 3 { format!(" {}", toks[2]) } else { String::new() };
+                    let progs = vec![
+                        ("fold", format!("(string->number \"{}\"{})", toks[1], radix)),
+                        ("call", format!("(define c10-s{} (car (list \"{}\"))) (string->number c10-s{}{})", n, toks[1], n, radix)),
+                        ("apply", format!("(apply string->number (list \"{}\"{}))", toks[1], radix)),
+                    ];
+                    for (i, (name, prog)) in progs.into_iter().enumerate() {
+                        write!(out, "{}{}=", if i == 0 { "" } else { "\t" }, name).ok();
+                        out.flush().ok();
+                        let r = eval(&mut engine, prog);
+                        write!(out, "{}", r).ok();
+                        out.flush().ok();
+                    }
+                    writeln!(out).ok();
+                    out.flush().ok();
+                    continue;
+                }
+                if let Some(f) = variadic_op(toks[0]) {
+                    let operands = &toks[1..];
+                    let vdefs = |engine: &mut Engine| -> Option<String> {
+                        for (i, lit) in operands.iter().enumerate() {
+                            let r = eval(engine, format!("(define c10-v{} (car (list '{})))", i, lit));
+                            if r.starts_with("err") || r.starts_with("panic") {
+                                return Some(r);
+                            }
+                        }
+                        None
+                    };
+                    if let Some(r) = vdefs(&mut engine) {
+                        writeln!(out, "operand={}", r).ok();
+                        continue;
+                    }
+                    let cmp = matches!(toks[0], "len" | "ltn" | "gtn" | "gen" | "eqn");
+                    for (i, (name, prog)) in variadic_shapes(f, operands, n, cmp).into_iter().enumerate() {
+                        write!(out, "{}{}=", if i == 0 { "" } else { "\t" }, name).ok();
+                        out.flush().ok();
+                        let r = eval(&mut engine, prog);
+                        write!(out, "{}", r).ok();
+                        out.flush().ok();
+                        if r.starts_with("panic") {
+                            vdefs(&mut engine);
+                        }
+                    }
+                    writeln!(out).ok();
+                    out.flush().ok();
+                    continue;
+                }
                 let (f, arity) = match scheme_op(toks[0]) {
                     Some(x) => x,
                     None => {
